@@ -6,3 +6,23 @@ template class SegmentedArray<uint64_t, MemManagerDefault, SegmentedArrayItemTra
 template class SegmentedArray<uint64_t, MemManagerDefault, SegmentedArrayItemTraits<uint64_t, MemManagerDefault>,
 	SegmentedArraySettings<SegmentedArrayItemCountFunc::cnst, 5>>;
 }
+
+// one use of every member TEMPLATE whose body is pinned as an AST fact (Gen_SegFacts.v): range / single-pass / initializer-list
+// Insert and filter-Remove, for both instantiations
+#include <iterator>
+#include <sstream>
+namespace momo {
+typedef SegmentedArray<uint64_t, MemManagerDefault, SegmentedArrayItemTraits<uint64_t, MemManagerDefault>,
+	SegmentedArraySettings<SegmentedArrayItemCountFunc::sqrt, 3>> C16SqrtArr;
+typedef SegmentedArray<uint64_t, MemManagerDefault, SegmentedArrayItemTraits<uint64_t, MemManagerDefault>,
+	SegmentedArraySettings<SegmentedArrayItemCountFunc::cnst, 5>> C16CnstArr;
+template<typename Arr> inline void c16_use(Arr& a, const uint64_t* p, std::istream& is)
+{
+	a.Insert(0, p, p + 1);                                                                       // forward iterators -> pvInsert #1
+	a.Insert(0, std::istream_iterator<uint64_t>(is), std::istream_iterator<uint64_t>());         // single pass -> pvInsert #2
+	a.Insert(0, {uint64_t{1}, uint64_t{2}});
+	a.Remove([] (const uint64_t& v) { return v == 0; });
+}
+template void c16_use<C16SqrtArr>(C16SqrtArr&, const uint64_t*, std::istream&);
+template void c16_use<C16CnstArr>(C16CnstArr&, const uint64_t*, std::istream&);
+}
